@@ -5,6 +5,7 @@ import (
 	"encoding/hex"
 	"fmt"
 	"hash/fnv"
+	"runtime"
 	"sort"
 	"sync"
 	"sync/atomic"
@@ -32,6 +33,7 @@ type Parked struct {
 	Who   string
 	Data  any
 	Probe func() bool // nil = always enabled
+	GID   int64       // goroutine that parked
 	ch    chan any
 	arr   uint64
 }
@@ -210,6 +212,7 @@ func (r *Run) ParkWith(p *Parked) any {
 		return nil
 	}
 	p.ch = make(chan any)
+	p.GID = CurGID()
 	r.mu.Lock()
 	r.arr++
 	p.arr = r.arr
@@ -312,8 +315,10 @@ func (r *Run) ActionsFromParked(custom func(p *Parked) *Action) []Action {
 		p := p
 		if custom != nil {
 			if a := custom(p); a != nil {
-				acts = append(acts, *a)
-				continue
+				if a.Do != nil {
+					acts = append(acts, *a)
+				}
+				continue // Do == nil: held back for now
 			}
 		}
 		acts = append(acts, Action{Name: "release " + p.key(), Weight: 1, Do: func() { r.Release(p, nil) }})
@@ -369,6 +374,7 @@ func (r *Run) Advance(d time.Duration) {
 type Task struct {
 	r    *Run
 	Name string
+	GID  int64 // goroutine id, set when the task starts
 	done atomic.Bool
 }
 
@@ -377,6 +383,7 @@ func (r *Run) Go(name string, f func(t *Task)) *Task {
 	r.tasks = append(r.tasks, t)
 	go func() {
 		defer t.done.Store(true)
+		t.GID = CurGID()
 		f(t)
 	}()
 	return t
@@ -451,6 +458,14 @@ func (r *Run) Loop(cfg LoopCfg) string {
 		if done() {
 			return "done"
 		}
+		if r.Tracing {
+			var ps []string
+			for _, p := range r.AllParked() {
+				ps = append(ps, p.key())
+			}
+			sort.Strings(ps)
+			r.Logf("~parked", "t=%v %v", r.SimTime(), ps)
+		}
 		acts := r.ActionsFromParked(cfg.Custom)
 		if cfg.Extra != nil {
 			acts = append(acts, cfg.Extra()...)
@@ -503,3 +518,52 @@ func (r *Run) LogHash() string {
 
 // EndSim is set by scenarios when the run ends (simulated time covered).
 func (r *Run) MarkEnd() { r.EndSim = time.Since(r.start) }
+
+// CurGID returns the id of the calling goroutine (parsed from its stack
+// header; used only to attribute observations to goroutines).
+func CurGID() int64 {
+	var buf [64]byte
+	n := runtime.Stack(buf[:], false)
+	// "goroutine 123 ["
+	var id int64
+	for i := len("goroutine "); i < n && buf[i] >= '0' && buf[i] <= '9'; i++ {
+		id = id*10 + int64(buf[i]-'0')
+	}
+	return id
+}
+
+// Tasks returns the harness tasks of the run.
+func (r *Run) Tasks() []*Task { return r.tasks }
+
+// TimeMayPass reports whether simulated time may advance now: computation
+// takes no time in the simulation, so the clock only moves while every
+// parked goroutine is waiting for something external - a network response, a
+// caller deciding to make its next call, or a lock that is really held.
+func (r *Run) TimeMayPass(externalSites ...string) bool {
+	for _, p := range r.AllParked() {
+		ext := false
+		for _, s := range externalSites {
+			if p.Site == s {
+				ext = true
+			}
+		}
+		if ext {
+			continue
+		}
+		if p.Probe != nil && !p.Probe() {
+			continue // blocked on a lock somebody holds
+		}
+		return false
+	}
+	return true
+}
+
+// TaskOf returns the name of the harness task running on goroutine gid.
+func (r *Run) TaskOf(gid int64) string {
+	for _, t := range r.tasks {
+		if t.GID == gid {
+			return t.Name
+		}
+	}
+	return ""
+}
